@@ -60,19 +60,30 @@ def _recording():
     return _REC
 
 
-def _f(s):
-    return None if s is None else float(frac(s))
+def _f(s, num="float"):
+    """the argument as the caller would pass it: a float, an int where the value is integral ("int"), a numpy
+    float64 ("np") - the property quantifies over values, not over the Python type that carries them"""
+    if s is None:
+        return None
+    q = frac(s)
+    if num == "int" and q.denominator == 1:
+        return int(q)
+    if num == "np":
+        import numpy as np
+        return np.float64(float(q))
+    return float(q)
 
 
 def _call(inp, parent=PARENTS[0]):
     from soundevent import data
     from soundevent.operations import segment_clip
-    clip = data.Clip(uuid=_uuid.UUID(parent), recording=_recording(), start_time=_f(inp["start"]),
-                     end_time=_f(inp["end"]))
+    num = inp.get("num", "float")
+    clip = data.Clip(uuid=_uuid.UUID(parent), recording=_recording(), start_time=_f(inp["start"], num),
+                     end_time=_f(inp["end"], num))
     kw = {}
     if inp.get("hop") is not None:
-        kw["hop"] = _f(inp["hop"])
-    return clip, list(segment_clip(clip, duration=_f(inp["duration"]), include_incomplete=inp["incl"], **kw))
+        kw["hop"] = _f(inp["hop"], num)
+    return clip, list(segment_clip(clip, duration=_f(inp["duration"], num), include_incomplete=inp["incl"], **kw))
 
 
 def _namespace():
@@ -289,6 +300,53 @@ def _random_dyadic(rng, n):
         yield _case(s, e, dur, None if (dur == hop and rng.random() < 0.5) else hop, rng.random() < 0.5)
 
 
+def _typed_grid_cases():
+    """integral values passed as Python ints and as numpy float64 (a fast path for one number type)"""
+    pts = list(range(0, 7))
+    qs = list(range(1, 6))
+    for num in ("int", "np"):
+        for s, e in itertools.combinations_with_replacement(pts, 2):
+            for dur in qs:
+                for hop in [None] + qs:
+                    for incl in (False, True):
+                        yield {**_case(s, e, dur, hop, incl), "num": num}
+
+
+def _fine_cases(rng, n):
+    """clip ends (and starts) a tiny dyadic step 2^-k, k = 10..40, off a lattice point or off the end of a
+    window: the comparisons of the loop decided by a difference far below the grid step.  All values stay
+    exact in binary64 (magnitudes < 2^10 at resolution 2^-40) and (e - s) / hop < 64 is at least 2^-43 away
+    from an integer unless it is one, so the float quotient cannot round across an integer."""
+    for _ in range(n):
+        q = 4
+        hop = Fraction(rng.randint(1, 8 * q), q)
+        r = rng.random()
+        dur = hop if r < 0.3 else (Fraction(rng.randint(1, 8 * q), q))
+        s = Fraction(rng.randint(0, 64 * q), q) if rng.random() < 0.7 else Fraction(0)
+        m = rng.randint(0, 20)
+        eps = Fraction(rng.choice([-1, 1]), 1 << rng.choice([10, 20, 30, 36, 40]))
+        e = s + m * hop + (dur if rng.random() < 0.5 else 0) + eps
+        r = rng.random()
+        if r < 0.25:
+            s, e = s + eps, e + eps                    # the whole clip off the grid, its length on it
+        elif r < 0.4:
+            s = s - eps if s - eps >= 0 else s + abs(eps)
+        if e < s:
+            e = s
+        yield _case(s, e, dur, None if (dur == hop and rng.random() < 0.5) else hop, rng.random() < 0.5)
+
+
+def _tiny_hop_cases():
+    """hops of 2^-22 s: starts that differ by less than a microsecond must still give distinct segments and ids"""
+    h = Fraction(1, 1 << 22)
+    for s in (Fraction(0), Fraction(1), Fraction(37, 8)):
+        for j in range(0, 13):
+            for dur in (h, 2 * h, 3 * h):
+                for hop in (None, h, 2 * h):
+                    for incl in (False, True):
+                        yield _case(s, s + j * h, dur, hop, incl)
+
+
 def _free_cases(rng, n):
     """decimal (non-dyadic) hops; the floats are what a user would type"""
     for _ in range(n):
@@ -313,6 +371,25 @@ def _free_cases(rng, n):
         if e < s:
             e = s
         yield _case(s, e, dur, None if (dn == hn and rng.random() < 0.5) else hop, rng.random() < 0.6)
+
+
+def _id_directed_cases(rng, n):
+    """identifier collisions a sloppy name could produce: decimal bounds whose digits concatenate ambiguously
+    ('1.5' + '12.5' = '1.51' + '2.5'), the same bounds under two parents, the same start with another end, the
+    same end with another start"""
+    big = Fraction(1000)
+    for _ in range(n):
+        a, d, x = rng.randint(1, 8), rng.randint(1, 9), rng.randint(1, 9)
+        y = rng.randint(a + 1, 9)
+        A, B = Fraction(f"{a}.{d}"), Fraction(f"{x}{y}.5")
+        A2, B2 = Fraction(f"{a}.{d}{x}"), Fraction(f"{y}.5")
+        one = lambda s, e, parent: {**_case(s, e, big, None, True), "parent": parent}    # noqa: E731
+        yield {"calls": [one(A, B, PARENTS[0]), one(A2, B2, PARENTS[0])]}
+        yield {"calls": [one(A, B, PARENTS[0]), one(A, B, PARENTS[1]), one(A, B, PARENTS[0])]}
+        yield {"calls": [one(A, B, PARENTS[0]), one(A, B2 + 20, PARENTS[0]), one(A2, B, PARENTS[0])]}
+        # '<start>:<end>' read as one string must still split uniquely: (1.5, 2.5) / (1.52, 5) style
+        yield {"calls": [one(Fraction(f"{a}.{d}"), Fraction(f"{y}.{x}"), PARENTS[0]),
+                         one(Fraction(f"{a}.{d}{y}"), Fraction(f"{y}{x}"), PARENTS[0])]}
 
 
 def _id_cases(rng, n):
@@ -394,12 +471,24 @@ def _stage_grid(ctx):
                                       "j=1..20; both flags")
 
 
+def _with_types(rng, cases):
+    for c in cases:
+        r = rng.random()
+        yield {**c, "num": "int"} if r < 0.15 else ({**c, "num": "np"} if r < 0.25 else c)
+
+
 def _stage_random(ctx):
-    _run_exact(ctx, _random_dyadic(ctx.rng, ctx.budget(3000, 40000)))
+    _run_exact(ctx, _with_types(ctx.rng, _random_dyadic(ctx.rng, ctx.budget(3000, 40000))))
+    _run_exact(ctx, _typed_grid_cases())
+    ctx.exhaustive["segment typed grid"] = ("integral clip start <= end in 0..6, duration 1..5, hop None or 1..5, both flags, "
+                                            "passed as Python ints and as numpy float64")
+    _run_exact(ctx, _fine_cases(ctx.rng, ctx.budget(3000, 30000)))
+    _run_exact(ctx, _tiny_hop_cases())
 
 
 def _stage_ids(ctx):
     ctx.run_cases(OPS["id_classes"], _id_cases(ctx.rng, ctx.budget(300, 3000)))
+    ctx.run_cases(OPS["id_classes"], _id_directed_cases(ctx.rng, ctx.budget(60, 600)))
 
 
 def _stage_free(ctx):
@@ -430,4 +519,8 @@ def run(ctx):
 def search(ctx, failures):
     """a tie broke (uuid formula, correspondence): look for an input on which the property itself fails"""
     ctx.run_cases(OPS["id_classes"], _id_cases(ctx.rng, 2000))
+    ctx.run_cases(OPS["id_classes"], _id_directed_cases(ctx.rng, 300))
+    _run_exact(ctx, _tiny_hop_cases())
+    _run_exact(ctx, _fine_cases(ctx.rng, 5000))
+    _run_exact(ctx, _typed_grid_cases())
     _run_exact(ctx, _grid_cases(12, 2))
